@@ -25,16 +25,19 @@ Record mname := MN { m_pack : bool; m_fmt : nat; m_top : bool; m_spec : nat }.
 Definition mname_eqb (a b: mname) : bool :=
   Bool.eqb (m_pack a) (m_pack b) && Nat.eqb (m_fmt a) (m_fmt b) && Bool.eqb (m_top a) (m_top b) && Nat.eqb (m_spec a) (m_spec b).
 
-Record field := FD { f_cls : cid; f_spec : nat }.
+(* f_byname: the annotation names the class (it must be bound in the module namespace to be resolved);
+   false for typing.Self, which needs no name lookup *)
+Record field := FD { f_cls : cid; f_spec : nat; f_byname : bool }.
 
 Record cdesc := CD {
   c_lazy : bool;                  (* Config.lazy_compilation *)
   c_dsup : bool;                  (* ADD_DIALECT_SUPPORT *)
   c_fmts : list (nat * nat);      (* (unpack format, pack format) compiled at class creation; [] = plain dataclass *)
-  c_fields : list field           (* dataclass-valued positions incl. inherited ones, in field order *)
+  c_fields : list field;          (* dataclass-valued positions incl. inherited ones, in field order *)
+  c_parent : option cid           (* the dataclass this class inherits from (single inheritance chain) *)
 }.
 Definition fam := list cdesc.
-Definition dflt_c := CD false false [] [].
+Definition dflt_c := CD false false [] [] None.
 Definition cls (F: fam) (c: cid) : cdesc := nth c F dflt_c.
 
 Inductive meth :=
@@ -93,6 +96,20 @@ Definition cache_store (st: state) (c: cid) (m: mname) (d: did) (x: meth) : stat
 Definition bind (st: state) (c: cid) : state := ST (slots st) (caches st) (c :: bound st).
 Definition is_bound (st: state) (c: cid) : bool := existsb (Nat.eqb c) (bound st).
 
+(* attribute lookup of a generated method on class c: the class' own __dict__ first, then its ancestors' (MRO).
+   [get_slot] is the own-__dict__ test used by the builders (get_class_that_defines_method(..) != cls);
+   [mro_slot] is what `value.__mashumaro_m__` / `K.__mashumaro_m__` evaluates to at run time *)
+Fixpoint mro_walk (F: fam) (n: nat) (st: state) (c: cid) (m: mname) : option meth :=
+  match get_slot st c m with
+  | Some x => Some x
+  | None =>
+      match n with
+      | 0 => None
+      | S n' => match c_parent (cls F c) with Some p => mro_walk F n' st p m | None => None end
+      end
+  end.
+Definition mro_slot (F: fam) (st: state) (c: cid) (m: mname) : option meth := mro_walk F (length F) st c m.
+
 Inductive exc := EAttrCache | EAttrMeth | EUnresolved | EBuildCycle.
 
 (* method name used for a nested dataclass position with specialisation [spec] inside method m *)
@@ -103,7 +120,7 @@ Definition stub_target (m: mname) : mname := MN (m_pack m) (m_fmt m) (m_top m) 0
 Definition dialect_target (m: mname) : mname := MN (m_pack m) (m_fmt m) false 0.
 
 Definition unresolved (F: fam) (st: state) (c: cid) : bool :=
-  existsb (fun f => negb (is_bound st (f_cls f))) (c_fields (cls F c)).
+  existsb (fun f => f_byname f && negb (is_bound st (f_cls f))) (c_fields (cls F c)).
 
 (* exec of the generated program: `if not cache in cls.__dict__: cls.cache = {}` (only with
    ADD_DIALECT_SUPPORT), then setattr / cache[dialect] = f *)
@@ -120,19 +137,20 @@ Definition install (F: fam) (st: state) (c: cid) (m: mname) (d: option did) (x: 
 
 (* on-demand compilation of the nested dataclasses of method m of class c (pack.py 234-262, unpack.py
    696-727): a nested class is compiled iff it does not define the method itself, unless it is the class
-   being compiled by a builder without encoder/decoder *)
-Fixpoint deps_with (bld: state -> cid -> mname -> state * option exc) (c: cid) (m: mname)
+   being compiled by a builder without encoder/decoder and without dialect (selfskip; fixes b1d4bae, 423401c:
+   a dialect-specific builder installs no default method, so it must not take this shortcut) *)
+Fixpoint deps_with (bld: state -> cid -> mname -> state * option exc) (selfskip: bool) (c: cid) (m: mname)
          (fs: list field) (st: state) : state * option exc :=
   match fs with
   | [] => (st, None)
   | f :: r =>
       let m' := nested m (f_spec f) in
       match get_slot st (f_cls f) m' with
-      | Some _ => deps_with bld c m r st
+      | Some _ => deps_with bld selfskip c m r st
       | None =>
-          if Nat.eqb (f_cls f) c && negb (m_top m) then deps_with bld c m r st
+          if selfskip && Nat.eqb (f_cls f) c && negb (m_top m) then deps_with bld selfskip c m r st
           else match bld st (f_cls f) m' with
-               | (st', None) => deps_with bld c m r st'
+               | (st', None) => deps_with bld selfskip c m r st'
                | (st', Some e) => (st', Some e)
                end
       end
@@ -185,7 +203,8 @@ Section Build.
       else
         (* a nailed builder compiles the nested class' DEFAULT method on demand (dialect = None, fix 28d8957):
            the generated call value.__mashumaro_<m>__(flags) needs that method, whatever the dialect *)
-        match deps_with (fun st c' m' => build n' st true c' m' None) c m (c_fields cd) st with
+        match deps_with (fun st c' m' => build n' st true c' m' None)
+                        (match d with None => true | Some _ => false end) c m (c_fields cd) st with
         | (st1, None) => install F st1 c m d (Compiled c m d)
         | (st1, Some e) => (st1, Some e)
         end
@@ -198,7 +217,9 @@ Section Build.
     match fuel with
     | 0 => (st, DOOF)
     | S fuel' =>
-      match get_slot st c m with
+      (* run-time attribute lookup (MRO); the function found runs with cls = c: an inherited STUB compiles the
+         method for c itself, an inherited COMPILED method runs the ancestor's body on c's data *)
+      match mro_slot F st c m with
       | None => (st, DExc EAttrMeth)
       | Some mt =>
           match d with
